@@ -83,7 +83,7 @@ def run_check(pid, tier, seed, harness_specs, level_note, args):
     import explore
     from hlib import program
     t0 = time.time()
-    crates = sorted({c for spec in harness_specs for c in spec.get('crates', ('liwe',))})
+    crates = sorted({c for spec in harness_specs if 'kani' not in spec for c in spec.get('crates', ('liwe',))})
     mir_files = []
     for c in crates:
         f, regenerated = mirdump.dump(c, deps=('liwe',) if c != 'liwe' else ())
@@ -102,7 +102,23 @@ def run_check(pid, tier, seed, harness_specs, level_note, args):
     fn_stmts = {}
     natives_hit = set()
     exhaustive = True
-    for spec in harness_specs:
+    kani_results = []
+    for spec in [s for s in harness_specs if 'kani' in s]:
+        import kani_check
+        res = kani_check.run(spec['kani'], cap_s=spec.get('cap_s', {}).get(tier, 600))
+        kani_results += res
+        for k in res:
+            if k['status'] == 'FAILED':
+                rp = os.path.join(os.environ.get('VERIF_EVIDENCE_DIR') or os.path.join(VERIF, 'evidence'), 'replays', '%s-kani-%s.json' % (pid, k['harness']))
+                os.makedirs(os.path.dirname(rp), exist_ok=True)
+                json.dump({'property': pid, 'engine': 'kani', 'harness': k['harness'], 'failed_checks': k.get('failed_checks'),
+                           'how_to_replay': 'python3-vt mirsym/kani_check.py ' + k['harness'] + '  (harness source: /verif/kani/*.rs, real compiled code)'}, open(rp, 'w'), indent=1)
+                new_violations.append((pid + '.kani:' + k['harness'], 'general', rp, 1))
+            elif k['status'] != 'SUCCESSFUL':
+                print('NOTE: kani harness %s inconclusive (%s); not counted either way' % (k['harness'], k.get('why', 'see evidence')))
+            elif k.get('covers') and not all(c == 'SATISFIED' for c in k['covers']):
+                broken.append('kani harness %s: cover goal not reachable (vacuous)' % k['harness'])
+    for spec in [s for s in harness_specs if 'kani' not in s]:
         hz = spec['make'](prog, tier)
         if hasattr(hz, 'tv_phase'):
             if os.environ.get('VERIF_TV_ALL'):
@@ -225,6 +241,7 @@ def run_check(pid, tier, seed, harness_specs, level_note, args):
             'functions_executed_from_mir': len(fn_stmts), 'top_functions': [[k, v] for k, v in top_fns[:25]],
             'trusted_base': sorted(natives_hit), 'harnesses': jsonable(ev_h),
             'known_findings_hit': [k['what'] for k in known_hit.values()],
+            'kani_cross_check': kani_results,
         },
         'assumptions': level_note,
         'wall_s': round(time.time() - t0, 1),
